@@ -47,7 +47,7 @@ class C05(S4UCheck):
                 if r.chance(0.4):
                     ops.append(['sleep', gen.think(r, 0.2)])
             plan['actors'].append(dict(id='a%d' % ai, host='h%d' % r.below(len(plan['hosts'])), ops=ops))
-        gen.knobs(plan, r)
+        gen.knobs(plan, r, walk_p=0.35)
         return plan
 
     def oracle(self, plan, res):
